@@ -373,6 +373,23 @@ func checkTrans(c transCase, o *pbt.Rec) pbt.Verdict {
 			return fmt.Sprintf("\nstep %d of the history: %s\nvariables: %s\noperationName: %q\nengine: %s\n got data:  %s\n want data: %s\n got errors:  %s\n want errors: %s\n got requests:\n   %s\n fresh default engine requests:\n   %s",
 				si, op.Query, op.VarsJSON(), op.OperationName, name, got.data, want.data, got.errs, want.errs, strings.Join(got.reqs, "\n   "), strings.Join(want.reqs, "\n   "))
 		}
+		if s.Ren {
+			// renaming the variables (alpha-equivalent request) never changes the response: the
+			// renamed request on a fresh engine against the original spelling on a fresh engine
+			if orig, ok := materialise(c, step{Op: s.Op, Alt: s.Alt, Name: s.Name}); ok {
+				f2, err := kit.NewOnWorld(w, kit.EngineOptions{})
+				if err != nil {
+					return pbt.Bad("engine construction failed: %v", err)
+				}
+				base := exec(f2, orig)
+				f2.Close()
+				if base.bad == "" && (base.data != want.data || base.nerrs != want.nerrs) {
+					return pbt.Bad("renaming the variables of a request changes its response\n original: %s\n variables: %s\n  data: %s\n  errors: %s\n  requests:\n   %s\n renamed: %s\n variables: %s\n  data: %s\n  errors: %s\n  requests:\n   %s",
+						orig.Query, orig.VarsJSON(), base.data, base.errs, strings.Join(base.reqs, "\n   "), op.Query, op.VarsJSON(), want.data, want.errs, strings.Join(want.reqs, "\n   "))
+				}
+				o.Label("renamed-variables-compared")
+			}
+		}
 		got := exec(shared, op)
 		if got.bad != "" {
 			return pbt.Bad("the long-lived engine fails on a request a fresh engine answers: %s%s", got.bad, ctx("shared default", got))
